@@ -1,9 +1,12 @@
 import LdarModel.Model.Summary
 import Mathlib.Data.List.Perm.Basic
+import Mathlib.Data.List.Nodup
 /-
 Helper lemmas for the summary aggregation model: file-name parsing of generated names, pattern
 selection, permutation invariance of keyed tables, the closed form of one batch.
 -/
+set_option linter.unusedSimpArgs false
+
 namespace LdarModel.Summary
 
 /-! ### names -/
@@ -129,5 +132,679 @@ theorem goodSuffix_ts : GoodSuffix tsSuffix := by unfold GoodSuffix; decide
 theorem goodSuffix_emis : GoodSuffix emisSuffix := by unfold GoodSuffix; decide
 theorem goodSuffix_est : GoodSuffix estSuffix := by unfold GoodSuffix; decide
 theorem goodSuffix_rep : GoodSuffix repSuffix := by unfold GoodSuffix; decide
+
+
+/-! ### which generated file each pattern selects -/
+
+theorem hasSuffix_mkName_self (p : Name) (s : Nat) (suf : Name) : hasSuffix suf (mkName p s suf) = true := by
+  unfold hasSuffix mkName
+  rw [List.isSuffixOf_iff_suffix]
+  exact ⟨p ++ '_' :: (simDigits s ++ ['_']), by simp⟩
+
+theorem hasSuffix_mkName_other (p : Name) (s : Nat) (a b : Name)
+    (h1 : a.isSuffixOf ('_' :: b) = false) (h2 : ('_' :: b).isSuffixOf a = false) :
+    hasSuffix a (mkName p s b) = false := by
+  unfold hasSuffix mkName
+  cases h : a.isSuffixOf (p ++ '_' :: (simDigits s ++ '_' :: b)) with
+  | false => rfl
+  | true =>
+    rw [List.isSuffixOf_iff_suffix] at h
+    have hb : ('_' :: b) <:+ (p ++ '_' :: (simDigits s ++ '_' :: b)) :=
+      ⟨p ++ '_' :: simDigits s, by simp⟩
+    rcases List.suffix_or_suffix_of_suffix h hb with h' | h'
+    · rw [← List.isSuffixOf_iff_suffix] at h'; rw [h'] at h1; exact absurd h1 (by simp)
+    · rw [← List.isSuffixOf_iff_suffix] at h'; rw [h'] at h2; exact absurd h2 (by simp)
+
+theorem isKept_append_us (p rest : Name) : isKept (p ++ '_' :: rest) = isKept p := by
+  unfold isKept keptStr
+  match p with
+  | [] => simp [List.isPrefixOf]
+  | [a] => simp [List.isPrefixOf]
+  | [a, b] => simp [List.isPrefixOf]
+  | [a, b, c] => simp [List.isPrefixOf]
+  | a :: b :: c :: d :: p' => simp [List.isPrefixOf]
+
+theorem isKept_mkName (p : Name) (s : Nat) (suf : Name) : isKept (mkName p s suf) = isKept p := by
+  unfold mkName; exact isKept_append_us p _
+
+theorem isKept_kept_append (n : Name) : isKept (keptStr ++ n) = true := by
+  unfold isKept
+  rw [List.isPrefixOf_iff_prefix]
+  exact List.prefix_append _ _
+
+/-! ### keyed tables -/
+
+def keys {α : Type} (t : Table α) : List Key := t.map (·.1)
+
+theorem lookup_cons_eq {α : Type} (k k' : Key) (v : α) (t : Table α) :
+    List.lookup k ((k', v) :: t) = if k = k' then some v else List.lookup k t := by
+  rw [List.lookup_cons]
+  by_cases h : k = k'
+  · subst h; simp
+  · have : (k == k') = false := by simpa using h
+    simp [this, h]
+
+theorem lookup_eq_none_of_not_mem {α : Type} (k : Key) (t : Table α) (h : k ∉ keys t) :
+    List.lookup k t = none := by
+  induction t with
+  | nil => rfl
+  | cons x t ih =>
+    obtain ⟨k', v⟩ := x
+    have h1 : k ≠ k' := fun e => h (by simp [keys, e])
+    have h2 : k ∉ keys t := fun e => h (by simp [keys] at e ⊢; exact Or.inr e)
+    rw [lookup_cons_eq, if_neg h1]; exact ih h2
+
+theorem lookup_isSome_of_mem {α : Type} (k : Key) (t : Table α) (h : k ∈ keys t) :
+    (List.lookup k t).isSome = true := by
+  induction t with
+  | nil => simp [keys] at h
+  | cons x t ih =>
+    obtain ⟨k', v⟩ := x
+    rw [lookup_cons_eq]
+    by_cases e : k = k'
+    · simp [e]
+    · rw [if_neg e]
+      apply ih
+      simp [keys] at h ⊢
+      rcases h with h | h
+      · exact absurd h e
+      · exact h
+
+theorem lookup_perm {α : Type} {t t' : Table α} (h : t.Perm t') (nd : (keys t).Nodup) (k : Key) :
+    List.lookup k t = List.lookup k t' := by
+  induction h with
+  | nil => rfl
+  | cons x _ ih =>
+    obtain ⟨k', v⟩ := x
+    simp only [keys, List.map_cons, List.nodup_cons] at nd
+    rw [lookup_cons_eq, lookup_cons_eq, ih nd.2]
+  | swap x y l =>
+    obtain ⟨kx, vx⟩ := x
+    obtain ⟨ky, vy⟩ := y
+    simp only [keys, List.map_cons, List.nodup_cons, List.mem_cons] at nd
+    have hne : ky ≠ kx := fun e => nd.1 (Or.inl e)
+    simp only [lookup_cons_eq]
+    by_cases h1 : k = kx
+    · subst h1
+      have : ¬ k = ky := fun e => hne e.symm
+      simp [this]
+    · simp [h1]
+  | trans h1 _ ih1 ih2 =>
+    rw [ih1 nd]
+    apply ih2
+    exact (List.Perm.nodup_iff (List.Perm.map _ h1)).mp nd
+
+theorem lookup_map_val {α β : Type} (g : Key → α → β) (k : Key) (t : Table α) :
+    List.lookup k (t.map fun x => (x.1, g x.1 x.2)) = (List.lookup k t).map (g k) := by
+  induction t with
+  | nil => rfl
+  | cons x t ih =>
+    obtain ⟨k', v⟩ := x
+    simp only [List.map_cons, lookup_cons_eq]
+    by_cases e : k = k'
+    · subst e; simp
+    · simp [e, ih]
+
+theorem keys_map_val {α β : Type} (g : Key → α → β) (t : Table α) :
+    keys (t.map fun x => (x.1, g x.1 x.2)) = keys t := by
+  simp [keys, List.map_map, Function.comp_def]
+
+/-- lookup in the table built from optional per-simulation entries -/
+theorem lookup_optRows {α : Type} (p : Name) (f : Nat → Option α) (sims : List Nat) (s : Nat) :
+    List.lookup (key p s) (sims.flatMap fun s' => ((f s').map fun c => (key p s', c)).toList)
+      = if s ∈ sims then f s else none := by
+  induction sims with
+  | nil => simp
+  | cons a rest ih =>
+    simp only [List.flatMap_cons]
+    by_cases e : a = s
+    · subst e
+      cases hf : f a with
+      | none => simp [hf, ih]
+      | some c => simp [hf, lookup_cons_eq]
+    · have hk : key p s ≠ key p a := fun h => e (key_injective p h).symm
+      have hs : (s ∈ a :: rest) ↔ s ∈ rest := by
+        simp only [List.mem_cons]; constructor
+        · rintro (h | h)
+          · exact absurd h.symm e
+          · exact h
+        · exact Or.inr
+      cases hf : f a with
+      | none => simp [hf, ih, hs]
+      | some c => simp [hf, lookup_cons_eq, hk, ih, hs]
+
+theorem keys_optRows {α : Type} (p : Name) (f : Nat → Option α) (sims : List Nat) :
+    ∀ k ∈ keys (sims.flatMap fun s' => ((f s').map fun c => (key p s', c)).toList), ∃ s ∈ sims, k = key p s := by
+  intro k hk
+  simp only [keys, List.mem_map, List.mem_flatMap] at hk
+  obtain ⟨x, ⟨s, hs, hx⟩, rfl⟩ := hk
+  cases hf : f s with
+  | none => simp [hf] at hx
+  | some c => simp [hf] at hx; exact ⟨s, hs, by rw [hx]⟩
+
+theorem nodup_keys_optRows {α : Type} (p : Name) (f : Nat → Option α) (sims : List Nat) (nd : sims.Nodup) :
+    (keys (sims.flatMap fun s' => ((f s').map fun c => (key p s', c)).toList)).Nodup := by
+  induction sims with
+  | nil => simp [keys]
+  | cons a rest ih =>
+    simp only [List.nodup_cons] at nd
+    simp only [List.flatMap_cons, keys, List.map_append]
+    cases hf : f a with
+    | none => simpa [keys] using ih nd.2
+    | some c =>
+      simp only [Option.map_some, Option.toList_some, List.map_cons, List.map_nil, List.singleton_append,
+        List.nodup_cons]
+      refine ⟨?_, by simpa [keys] using ih nd.2⟩
+      intro hmem
+      obtain ⟨s, hs, he⟩ := keys_optRows p f rest _ (by simpa [keys] using hmem)
+      exact nd.1 ((key_injective p he) ▸ hs)
+
+
+/-! ### summarising a generated folder -/
+
+theorem flatMap_single {β γ : Type} (g : β → γ) (l : List β) : (l.flatMap fun x => [g x]) = l.map g := by
+  induction l with
+  | nil => rfl
+  | cons a l ih => simp [List.flatMap_cons, ih]
+
+section
+variable {κ α : Type}
+
+theorem summarize_perm (suf : Name) (f : κ → α) {l l' : List (File κ)} (h : l.Perm l') :
+    (summarize suf f l).Perm (summarize suf f l') := List.Perm.filterMap _ h
+
+theorem summarize_append (suf : Name) (f : κ → α) (a b : List (File κ)) :
+    summarize suf f (a ++ b) = summarize suf f a ++ summarize suf f b := by
+  simp [summarize, List.filterMap_append]
+
+theorem summarize_kept (suf : Name) (f : κ → α) (d : List (File κ)) (h : ∀ e ∈ d, isKept e.name = true) :
+    summarize suf f d = [] := by
+  rw [summarize, List.filterMap_eq_nil_iff]
+  intro e he
+  simp [h e he]
+
+theorem summarize_flatMap {β : Type} (suf : Name) (f : κ → α) (l : List β) (g : β → List (File κ)) :
+    summarize suf f (l.flatMap g) = l.flatMap fun x => summarize suf f (g x) := by
+  simp [summarize, List.filterMap_flatMap]
+
+theorem sfx_ts_emis (p : Name) (s : Nat) : hasSuffix tsSuffix (mkName p s emisSuffix) = false :=
+  hasSuffix_mkName_other p s _ _ (by decide) (by decide)
+theorem sfx_ts_est (p : Name) (s : Nat) : hasSuffix tsSuffix (mkName p s estSuffix) = false :=
+  hasSuffix_mkName_other p s _ _ (by decide) (by decide)
+theorem sfx_ts_rep (p : Name) (s : Nat) : hasSuffix tsSuffix (mkName p s repSuffix) = false :=
+  hasSuffix_mkName_other p s _ _ (by decide) (by decide)
+theorem sfx_emis_ts (p : Name) (s : Nat) : hasSuffix emisSuffix (mkName p s tsSuffix) = false :=
+  hasSuffix_mkName_other p s _ _ (by decide) (by decide)
+theorem sfx_emis_est (p : Name) (s : Nat) : hasSuffix emisSuffix (mkName p s estSuffix) = false :=
+  hasSuffix_mkName_other p s _ _ (by decide) (by decide)
+theorem sfx_emis_rep (p : Name) (s : Nat) : hasSuffix emisSuffix (mkName p s repSuffix) = false :=
+  hasSuffix_mkName_other p s _ _ (by decide) (by decide)
+theorem sfx_est_ts (p : Name) (s : Nat) : hasSuffix estSuffix (mkName p s tsSuffix) = false :=
+  hasSuffix_mkName_other p s _ _ (by decide) (by decide)
+theorem sfx_est_emis (p : Name) (s : Nat) : hasSuffix estSuffix (mkName p s emisSuffix) = false :=
+  hasSuffix_mkName_other p s _ _ (by decide) (by decide)
+theorem sfx_est_rep (p : Name) (s : Nat) : hasSuffix estSuffix (mkName p s repSuffix) = false :=
+  hasSuffix_mkName_other p s _ _ (by decide) (by decide)
+theorem sfx_rep_ts (p : Name) (s : Nat) : hasSuffix repSuffix (mkName p s tsSuffix) = false :=
+  hasSuffix_mkName_other p s _ _ (by decide) (by decide)
+theorem sfx_rep_emis (p : Name) (s : Nat) : hasSuffix repSuffix (mkName p s emisSuffix) = false :=
+  hasSuffix_mkName_other p s _ _ (by decide) (by decide)
+theorem sfx_rep_est (p : Name) (s : Nat) : hasSuffix repSuffix (mkName p s estSuffix) = false :=
+  hasSuffix_mkName_other p s _ _ (by decide) (by decide)
+
+theorem summarize_simFiles_ts (f : κ → α) (p : Name) (s : Nat) (o : SimOut κ) (hk : isKept p = false) :
+    summarize tsSuffix f (simFiles p s o) = [(key p s, f o.ts)] := by
+  unfold summarize simFiles
+  cases o.est <;> cases o.rep <;>
+    simp [hasSuffix_mkName_self, sfx_ts_emis, sfx_ts_est, sfx_ts_rep, isKept_mkName, hk,
+      parseName_mkName _ _ _ goodSuffix_ts]
+
+theorem summarize_simFiles_emis (f : κ → α) (p : Name) (s : Nat) (o : SimOut κ) (hk : isKept p = false) :
+    summarize emisSuffix f (simFiles p s o) = [(key p s, f o.emis)] := by
+  unfold summarize simFiles
+  cases o.est <;> cases o.rep <;>
+    simp [hasSuffix_mkName_self, sfx_emis_ts, sfx_emis_est, sfx_emis_rep, isKept_mkName, hk,
+      parseName_mkName _ _ _ goodSuffix_emis]
+
+theorem summarize_simFiles_est (f : κ → α) (p : Name) (s : Nat) (o : SimOut κ) (hk : isKept p = false) :
+    summarize estSuffix f (simFiles p s o) = ((o.est.map f).map fun c => (key p s, c)).toList := by
+  unfold summarize simFiles
+  cases o.est <;> cases o.rep <;>
+    simp [hasSuffix_mkName_self, sfx_est_ts, sfx_est_emis, sfx_est_rep, isKept_mkName, hk,
+      parseName_mkName _ _ _ goodSuffix_est]
+
+theorem summarize_simFiles_rep (f : κ → α) (p : Name) (s : Nat) (o : SimOut κ) (hk : isKept p = false) :
+    summarize repSuffix f (simFiles p s o) = ((o.rep.map f).map fun c => (key p s, c)).toList := by
+  unfold summarize simFiles
+  cases o.est <;> cases o.rep <;>
+    simp [hasSuffix_mkName_self, sfx_rep_ts, sfx_rep_emis, sfx_rep_est, isKept_mkName, hk,
+      parseName_mkName _ _ _ goodSuffix_rep]
+
+/-- the folder of program `p` while batch `sims` is summarised: files of earlier batches (all
+marked kept) and the files the batch has just written -/
+def batchDir (W : Name → Nat → SimOut κ) (p : Name) (old : List (File κ)) (sims : List Nat) : List (File κ) :=
+  old ++ sims.flatMap fun s => simFiles p s (W p s)
+
+theorem summarize_batch_ts (f : κ → α) (W : Name → Nat → SimOut κ) (p : Name) (hk : isKept p = false)
+    (old : List (File κ)) (hold : ∀ e ∈ old, isKept e.name = true) (sims : List Nat)
+    {l : List (File κ)} (hl : l.Perm (batchDir W p old sims)) :
+    (summarize tsSuffix f l).Perm (sims.map fun s => (key p s, f (W p s).ts)) := by
+  refine (summarize_perm _ _ hl).trans ?_
+  unfold batchDir
+  rw [summarize_append, summarize_kept _ _ _ hold, summarize_flatMap]
+  simp [summarize_simFiles_ts _ _ _ _ hk, flatMap_single]
+
+theorem summarize_batch_emis (f : κ → α) (W : Name → Nat → SimOut κ) (p : Name) (hk : isKept p = false)
+    (old : List (File κ)) (hold : ∀ e ∈ old, isKept e.name = true) (sims : List Nat)
+    {l : List (File κ)} (hl : l.Perm (batchDir W p old sims)) :
+    (summarize emisSuffix f l).Perm (sims.map fun s => (key p s, f (W p s).emis)) := by
+  refine (summarize_perm _ _ hl).trans ?_
+  unfold batchDir
+  rw [summarize_append, summarize_kept _ _ _ hold, summarize_flatMap]
+  simp [summarize_simFiles_emis _ _ _ _ hk, flatMap_single]
+
+theorem summarize_batch_est (f : κ → α) (W : Name → Nat → SimOut κ) (p : Name) (hk : isKept p = false)
+    (old : List (File κ)) (hold : ∀ e ∈ old, isKept e.name = true) (sims : List Nat)
+    {l : List (File κ)} (hl : l.Perm (batchDir W p old sims)) :
+    (summarize estSuffix f l).Perm
+      (sims.flatMap fun s => ((((W p s).est).map f).map fun c => (key p s, c)).toList) := by
+  refine (summarize_perm _ _ hl).trans ?_
+  unfold batchDir
+  rw [summarize_append, summarize_kept _ _ _ hold, summarize_flatMap]
+  simp [summarize_simFiles_est _ _ _ _ hk]
+
+theorem summarize_batch_rep (f : κ → α) (W : Name → Nat → SimOut κ) (p : Name) (hk : isKept p = false)
+    (old : List (File κ)) (hold : ∀ e ∈ old, isKept e.name = true) (sims : List Nat)
+    {l : List (File κ)} (hl : l.Perm (batchDir W p old sims)) :
+    (summarize repSuffix f l).Perm
+      (sims.flatMap fun s => ((((W p s).rep).map f).map fun c => (key p s, c)).toList) := by
+  refine (summarize_perm _ _ hl).trans ?_
+  unfold batchDir
+  rw [summarize_append, summarize_kept _ _ _ hold, summarize_flatMap]
+  simp [summarize_simFiles_rep _ _ _ _ hk]
+
+end
+
+
+/-! ### the estimate-minus-correction join and the outer merge on permuted tables -/
+
+theorem mem_keys_of_perm {α : Type} {t t' : Table α} (h : t.Perm t') (k : Key) : k ∈ keys t ↔ k ∈ keys t' :=
+  (List.Perm.map (·.1) h).mem_iff
+
+theorem nodup_keys_of_perm {α : Type} {t t' : Table α} (h : t.Perm t') (nd : (keys t).Nodup) : (keys t').Nodup :=
+  (List.Perm.nodup_iff (List.Perm.map _ h)).mp nd
+
+theorem estCell_congr {rep rep' : Table (List Rat)} (h : rep'.Perm rep) (nd : (keys rep).Nodup)
+    (k : Key) (e : List Rat) : estCell rep' k e = estCell rep k e := by
+  unfold estCell
+  rw [lookup_perm h (nodup_keys_of_perm h.symm nd) k]
+
+/-- the join does not depend on the order in which either table was scanned -/
+theorem estJoin_perm {est est' rep rep' : Table (List Rat)} (he : est'.Perm est) (hr : rep'.Perm rep)
+    (nd : (keys rep).Nodup) : (estJoin est' rep').Perm (estJoin est rep) := by
+  unfold estJoin
+  have : (fun x : Key × List Rat => (x.1, estCell rep' x.1 x.2)) = fun x => (x.1, estCell rep x.1 x.2) := by
+    funext x; rw [estCell_congr hr nd]
+  rw [this]
+  exact List.Perm.map _ he
+
+theorem keys_estJoin (est rep : Table (List Rat)) : keys (estJoin est rep) = keys est := by
+  unfold estJoin; exact keys_map_val (fun k e => estCell rep k e) est
+
+theorem lookup_estJoin (est rep : Table (List Rat)) (k : Key) :
+    List.lookup k (estJoin est rep) = (List.lookup k est).map (estCell rep k) := by
+  unfold estJoin; exact lookup_map_val (fun k e => estCell rep k e) k est
+
+theorem mergeOuter_perm {nE nY : Nat} {emis emis' : Table (List Val)} {est est' : Table (List Rat)}
+    (he : emis'.Perm emis) (hj : est'.Perm est) (nd : (keys est).Nodup)
+    (hsub : ∀ k ∈ keys est, k ∈ keys emis) :
+    (mergeOuter nE nY emis' est').Perm (emis.map fun x => (x.1, mergeCell nY est x.1 x.2)) := by
+  unfold mergeOuter
+  have h2 : (est'.filter fun x => (List.lookup x.1 emis').isNone) = [] := by
+    rw [List.filter_eq_nil_iff]
+    intro x hx
+    have hk : x.1 ∈ keys est' := by simp only [keys, List.mem_map]; exact ⟨x, hx, rfl⟩
+    have hk2 : x.1 ∈ keys emis' := (mem_keys_of_perm he _).mpr (hsub _ ((mem_keys_of_perm hj _).mp hk))
+    have := lookup_isSome_of_mem _ _ hk2
+    simp [Option.isNone_iff_eq_none, Option.isSome_iff_ne_none] at this ⊢
+    exact this
+  rw [h2]
+  simp only [List.map_nil, List.append_nil]
+  have : (fun x : Key × List Val => (x.1, mergeCell nY est' x.1 x.2)) = fun x => (x.1, mergeCell nY est x.1 x.2) := by
+    funext x
+    unfold mergeCell
+    rw [lookup_perm hj (nodup_keys_of_perm hj.symm nd) x.1]
+  rw [this]
+  exact List.Perm.map _ he
+
+/-! ### closed form of the rows one batch adds for one program -/
+
+section
+variable {κ : Type}
+
+/-- the yearly estimated-emissions cells of a program-simulation, from its own two files -/
+def estPart (S : Stats κ) (o : SimOut κ) : List Val :=
+  match o.est with
+  | none => List.replicate S.nYears (Val.q 0)
+  | some e =>
+    (match o.rep with
+     | some r => List.zipWith floorSub (S.est e) (S.rep r)
+     | none => (S.est e).map fun _ => 0).map Val.q
+
+/-- the Timeseries Summary row of (p, s): a function of that pair's own timeseries file -/
+def tsRowOf (S : Stats κ) (W : Name → Nat → SimOut κ) (p : Name) (s : Nat) : Key × List Val :=
+  (key p s, S.ts (W p s).ts)
+
+/-- the Emissions Summary row of (p, s): a function of that pair's own files -/
+def emisRowOf (S : Stats κ) (W : Name → Nat → SimOut κ) (p : Name) (s : Nat) : Key × List Val :=
+  (key p s, S.emis (W p s).emis ++ estPart S (W p s))
+
+theorem tsRows_batch (S : Stats κ) (W : Name → Nat → SimOut κ) (p : Name) (hk : isKept p = false)
+    (old : List (File κ)) (hold : ∀ e ∈ old, isKept e.name = true) (sims : List Nat)
+    {l : List (File κ)} (hl : l.Perm (batchDir W p old sims)) :
+    (tsRows S l).Perm (sims.map (tsRowOf S W p)) := by
+  unfold tsRows
+  exact summarize_batch_ts S.ts W p hk old hold sims hl
+
+theorem emisRows_batch (S : Stats κ) (W : Name → Nat → SimOut κ) (p : Name) (hk : isKept p = false)
+    (old : List (File κ)) (hold : ∀ e ∈ old, isKept e.name = true) (sims : List Nat) (nd : sims.Nodup)
+    {le lest lrep : List (File κ)} (h1 : le.Perm (batchDir W p old sims))
+    (h2 : lest.Perm (batchDir W p old sims)) (h3 : lrep.Perm (batchDir W p old sims)) :
+    (emisRows S le lest lrep).Perm (sims.map (emisRowOf S W p)) := by
+  unfold emisRows
+  have hE := summarize_batch_emis S.emis W p hk old hold sims h1
+  have hX := summarize_batch_est S.est W p hk old hold sims h2
+  have hR := summarize_batch_rep S.rep W p hk old hold sims h3
+  generalize summarize emisSuffix S.emis le = E' at hE
+  generalize summarize estSuffix S.est lest = X' at hX
+  generalize summarize repSuffix S.rep lrep = R' at hR
+  let fE : Nat → Option (List Rat) := fun s => ((W p s).est).map S.est
+  let fR : Nat → Option (List Rat) := fun s => ((W p s).rep).map S.rep
+  have ndR := nodup_keys_optRows p fR sims nd
+  have ndX := nodup_keys_optRows p fE sims nd
+  have hJ := estJoin_perm hX hR ndR
+  have ndJ : (keys (estJoin (sims.flatMap fun s => ((fE s).map fun c => (key p s, c)).toList)
+      (sims.flatMap fun s => ((fR s).map fun c => (key p s, c)).toList))).Nodup := by
+    rw [keys_estJoin]; exact ndX
+  have hsub : ∀ k ∈ keys (estJoin (sims.flatMap fun s => ((fE s).map fun c => (key p s, c)).toList)
+      (sims.flatMap fun s => ((fR s).map fun c => (key p s, c)).toList)),
+      k ∈ keys (sims.map fun s => (key p s, S.emis (W p s).emis)) := by
+    intro k hk'
+    rw [keys_estJoin] at hk'
+    obtain ⟨s, hs, rfl⟩ := keys_optRows p fE sims k hk'
+    simp only [keys, List.map_map, List.mem_map]
+    exact ⟨s, hs, rfl⟩
+  refine (mergeOuter_perm hE hJ ndJ hsub).trans ?_
+  rw [List.map_map]
+  apply List.Perm.of_eq
+  apply List.map_congr_left
+  intro s hs
+  simp only [Function.comp, emisRowOf, mergeCell, lookup_estJoin]
+  rw [lookup_optRows p fE sims s]
+  unfold estCell
+  rw [lookup_optRows p fR sims s]
+  simp only [hs, if_true, fE, fR, estPart]
+  cases (W p s).est <;> cases (W p s).rep <;> simp
+
+end
+
+
+/-! ### the batch loop -/
+
+theorem flatMap_transpose {β γ δ : Type} (f : β → γ → δ) (ps : List β) (ss : List γ) :
+    (ps.flatMap fun p => ss.map (f p)).Perm (ss.flatMap fun s => ps.map fun p => f p s) := by
+  induction ps with
+  | nil => simp
+  | cons p ps ih =>
+    simp only [List.flatMap_cons, List.map_cons]
+    have h1 := List.flatMap_append_perm ss (fun s => [f p s]) (fun s => ps.map fun p => f p s)
+    rw [flatMap_single] at h1
+    exact (List.Perm.append_left _ ih).trans (by simpa using h1)
+
+section
+variable {κ : Type}
+
+/-- every listing a schedule returns is a permutation of what it was given -/
+def Sched.Valid (σ : Sched κ) : Prop :=
+  (∀ b l, (σ.dirs b l).Perm l) ∧ (∀ b p l, (σ.ts b p l).Perm l) ∧ (∀ b p l, (σ.emis b p l).Perm l)
+    ∧ (∀ b p l, (σ.est b p l).Perm l) ∧ (∀ b p l, (σ.rep b p l).Perm l)
+
+/-- program names that do not collide with the two reserved names -/
+def GoodProgs (progs : List Name) : Prop := ∀ p ∈ progs, isKept p = false ∧ p ≠ logsName
+
+/-- one row per (program, simulation), computed from that pair's own files -/
+def canonTs (S : Stats κ) (W : Name → Nat → SimOut κ) (progs : List Name) (sims : List Nat) : Table (List Val) :=
+  sims.flatMap fun s => progs.map fun p => tsRowOf S W p s
+
+def canonEmis (S : Stats κ) (W : Name → Nat → SimOut κ) (progs : List Name) (sims : List Nat) : Table (List Val) :=
+  sims.flatMap fun s => progs.map fun p => emisRowOf S W p s
+
+structure Inv (S : Stats κ) (W : Name → Nat → SimOut κ) (progs : List Name) (st : St κ) (done : List Nat) : Prop where
+  names : st.dirs.map (·.1) = progs
+  kept : ∀ pd ∈ st.dirs, ∀ e ∈ pd.2, isKept e.name = true
+  ts : st.ts.Perm (canonTs S W progs done)
+  emis : st.emis.Perm (canonEmis S W progs done)
+
+theorem finish_kept (clear : Bool) (d : List (File κ)) : ∀ e ∈ finish clear d, isKept e.name = true := by
+  intro e he
+  unfold finish at he
+  cases clear with
+  | true =>
+    simp only [if_true, clearDir, List.mem_filter] at he
+    exact he.2
+  | false =>
+    simp only [Bool.false_eq_true, if_false, markKept, List.mem_map] at he
+    obtain ⟨f, _, rfl⟩ := he
+    by_cases hk : isKept f.name = true
+    · simp [hk]
+    · simp [hk, isKept_kept_append]
+
+theorem writeBatch_dirs (W : Name → Nat → SimOut κ) (sims : List Nat) (st : St κ) :
+    (writeBatch W sims st).dirs = st.dirs.map fun pd => (pd.1, batchDir W pd.1 pd.2 sims) := rfl
+
+theorem progDirs_eq (st : St κ) (h : ∀ pd ∈ st.dirs, pd.1 ≠ logsName) : progDirs st = st.dirs := by
+  unfold progDirs
+  rw [List.filter_eq_self]
+  intro pd hpd
+  simpa using h pd hpd
+
+theorem step_inv (S : Stats κ) (W : Name → Nat → SimOut κ) (progs : List Name) (hg : GoodProgs progs)
+    (σ : Sched κ) (hσ : σ.Valid) (st : St κ) (done : List Nat) (h : Inv S W progs st done)
+    (b : Nat) (clear : Bool) (sims : List Nat) (nd : sims.Nodup) :
+    Inv S W progs (genAll S clear (visitOf σ b (writeBatch W sims st)) (writeBatch W sims st)) (done ++ sims) := by
+  obtain ⟨hd, hts, hem, hes, hre⟩ := hσ
+  have hmem : ∀ pd ∈ st.dirs, pd.1 ∈ progs := by
+    intro pd hpd
+    rw [← h.names]; exact List.mem_map.mpr ⟨pd, hpd, rfl⟩
+  have hnl1 : ∀ pd ∈ (writeBatch W sims st).dirs, pd.1 ≠ logsName := by
+    intro pd hpd
+    rw [writeBatch_dirs, List.mem_map] at hpd
+    obtain ⟨q, hq, rfl⟩ := hpd
+    exact (hg q.1 (hmem q hq)).2
+  have hpd1 := progDirs_eq _ hnl1
+  -- rows added by this call, program-major
+  have rows_ts : ((visitOf σ b (writeBatch W sims st)).flatMap fun v => tsRows S v.2.ts).Perm
+      (progs.flatMap fun p => sims.map (tsRowOf S W p)) := by
+    unfold visitOf
+    rw [List.flatMap_map, hpd1]
+    refine (List.Perm.flatMap_right _ (hd b _)).trans ?_
+    rw [writeBatch_dirs, List.flatMap_map, ← h.names, List.flatMap_map]
+    apply List.Perm.flatMap_left
+    intro pd hpd
+    exact tsRows_batch S W pd.1 (hg _ (hmem pd hpd)).1 pd.2 (h.kept pd hpd) sims (hts b _ _)
+  have rows_emis : ((visitOf σ b (writeBatch W sims st)).flatMap fun v => emisRows S v.2.emis v.2.est v.2.rep).Perm
+      (progs.flatMap fun p => sims.map (emisRowOf S W p)) := by
+    unfold visitOf
+    rw [List.flatMap_map, hpd1]
+    refine (List.Perm.flatMap_right _ (hd b _)).trans ?_
+    rw [writeBatch_dirs, List.flatMap_map, ← h.names, List.flatMap_map]
+    apply List.Perm.flatMap_left
+    intro pd hpd
+    exact emisRows_batch S W pd.1 (hg _ (hmem pd hpd)).1 pd.2 (h.kept pd hpd) sims nd (hem b _ _) (hes b _ _)
+      (hre b _ _)
+  constructor
+  · -- folder names are unchanged
+    simp only [genAll, writeBatch_dirs, List.map_map]
+    rw [← h.names]
+    apply List.map_congr_left
+    intro pd _
+    simp only [Function.comp]
+    split <;> rfl
+  · -- every file left in a program folder is marked kept
+    intro pd hpd e he
+    simp only [genAll, List.mem_map] at hpd
+    obtain ⟨q, hq, rfl⟩ := hpd
+    have hq' : (q.1 != logsName) = true := by simpa using hnl1 q hq
+    rw [if_pos hq'] at he
+    exact finish_kept clear q.2 e he
+  · show (st.ts ++ _).Perm _
+    unfold canonTs
+    rw [List.flatMap_append]
+    exact List.Perm.append h.ts (rows_ts.trans (flatMap_transpose _ _ _))
+  · show (st.emis ++ _).Perm _
+    unfold canonEmis
+    rw [List.flatMap_append]
+    exact List.Perm.append h.emis (rows_emis.trans (flatMap_transpose _ _ _))
+
+/-- simulation numbers handled by the batches `cs` when the first of them has index `b` -/
+def allSims : Nat → List Nat → List Nat
+  | _, [] => []
+  | b, c :: cs => batchSims b c ++ allSims (b + 1) cs
+
+theorem nodup_batchSims (b c : Nat) : (batchSims b c).Nodup := by
+  unfold batchSims
+  refine List.Nodup.map ?_ List.nodup_range
+  intro x y hxy
+  simpa using hxy
+
+theorem runBatches_inv (S : Stats κ) (W : Name → Nat → SimOut κ) (progs : List Name) (hg : GoodProgs progs)
+    (keepAll : Bool) (σ : Sched κ) (hσ : σ.Valid) (cs : List Nat) :
+    ∀ (b : Nat) (st : St κ) (done : List Nat), Inv S W progs st done →
+      Inv S W progs (runBatches S W keepAll σ b cs st) (done ++ allSims b cs) := by
+  induction cs with
+  | nil => intro b st done h; simpa [runBatches, allSims] using h
+  | cons c cs ih =>
+    intro b st done h
+    simp only [runBatches, allSims]
+    rw [← List.append_assoc]
+    exact ih (b + 1) _ _ (step_inv S W progs hg σ hσ st done h b _ (batchSims b c) (nodup_batchSims b c))
+
+theorem init_inv (S : Stats κ) (W : Name → Nat → SimOut κ) (progs : List Name) :
+    Inv S W progs { dirs := progs.map fun p => (p, []), ts := [], emis := [] } [] := by
+  constructor
+  · simp [List.map_map, Function.comp_def]
+  · intro pd hpd e he
+    simp only [List.mem_map] at hpd
+    obtain ⟨p, _, rfl⟩ := hpd
+    simp at he
+  · simp [canonTs]
+  · simp [canonEmis]
+
+end
+
+/-! ### keys and lookups of the closed form -/
+
+theorem lookup_of_mem_nodup {α : Type} {t : Table α} (nd : (keys t).Nodup) {k : Key} {v : α}
+    (h : (k, v) ∈ t) : List.lookup k t = some v := by
+  induction t with
+  | nil => simp at h
+  | cons x t ih =>
+    obtain ⟨k', v'⟩ := x
+    simp only [keys, List.map_cons, List.nodup_cons] at nd
+    rw [lookup_cons_eq]
+    rcases List.mem_cons.mp h with h1 | h2
+    · cases h1; simp
+    · have : k ≠ k' := by
+        intro e; subst e
+        exact nd.1 (List.mem_map.mpr ⟨(k, v), h2, rfl⟩)
+      rw [if_neg this]; exact ih nd.2 h2
+
+def canonKeys (progs : List Name) (sims : List Nat) : List Key :=
+  sims.flatMap fun s => progs.map fun p => key p s
+
+theorem mem_canonKeys (progs : List Name) (sims : List Nat) (k : Key) :
+    k ∈ canonKeys progs sims ↔ ∃ s ∈ sims, ∃ p ∈ progs, k = key p s := by
+  simp only [canonKeys, List.mem_flatMap, List.mem_map]
+  constructor
+  · rintro ⟨s, hs, p, hp, rfl⟩; exact ⟨s, hs, p, hp, rfl⟩
+  · rintro ⟨s, hs, p, hp, rfl⟩; exact ⟨s, hs, p, hp, rfl⟩
+
+theorem nodup_canonKeys (progs : List Name) (sims : List Nat) (hp : progs.Nodup) (hs : sims.Nodup) :
+    (canonKeys progs sims).Nodup := by
+  unfold canonKeys
+  rw [List.nodup_flatMap]
+  constructor
+  · intro s _
+    refine List.Nodup.map ?_ hp
+    intro a b hab
+    simpa [key] using hab
+  · refine List.Pairwise.imp ?_ hs
+    intro a b hab
+    simp only [Function.onFun]
+    intro k h1 h2
+    simp only [List.mem_map] at h1 h2
+    obtain ⟨p, _, rfl⟩ := h1
+    obtain ⟨q, _, hq⟩ := h2
+    simp only [key, Prod.mk.injEq] at hq
+    exact hab (simDigits_injective hq.2).symm
+
+section
+variable {κ : Type}
+
+theorem keys_canonTs (S : Stats κ) (W : Name → Nat → SimOut κ) (progs : List Name) (sims : List Nat) :
+    keys (canonTs S W progs sims) = canonKeys progs sims := by
+  simp [keys, canonTs, canonKeys, List.map_flatMap, List.map_map, Function.comp_def, tsRowOf]
+
+theorem keys_canonEmis (S : Stats κ) (W : Name → Nat → SimOut κ) (progs : List Name) (sims : List Nat) :
+    keys (canonEmis S W progs sims) = canonKeys progs sims := by
+  simp [keys, canonEmis, canonKeys, List.map_flatMap, List.map_map, Function.comp_def, emisRowOf]
+
+theorem lookup_canonTs (S : Stats κ) (W : Name → Nat → SimOut κ) (progs : List Name) (sims : List Nat)
+    (hp : progs.Nodup) (hs : sims.Nodup) (p : Name) (hpm : p ∈ progs) (s : Nat) (hsm : s ∈ sims) :
+    List.lookup (key p s) (canonTs S W progs sims) = some (S.ts (W p s).ts) := by
+  apply lookup_of_mem_nodup
+  · rw [keys_canonTs]; exact nodup_canonKeys progs sims hp hs
+  · simp only [canonTs, List.mem_flatMap, List.mem_map]
+    exact ⟨s, hsm, p, hpm, rfl⟩
+
+theorem lookup_canonEmis (S : Stats κ) (W : Name → Nat → SimOut κ) (progs : List Name) (sims : List Nat)
+    (hp : progs.Nodup) (hs : sims.Nodup) (p : Name) (hpm : p ∈ progs) (s : Nat) (hsm : s ∈ sims) :
+    List.lookup (key p s) (canonEmis S W progs sims) = some (S.emis (W p s).emis ++ estPart S (W p s)) := by
+  apply lookup_of_mem_nodup
+  · rw [keys_canonEmis]; exact nodup_canonKeys progs sims hp hs
+  · simp only [canonEmis, List.mem_flatMap, List.mem_map]
+    exact ⟨s, hsm, p, hpm, rfl⟩
+
+end
+
+/-! ### batching arithmetic -/
+
+theorem allSims_replicate (q b : Nat) (t : List Nat) :
+    allSims b (List.replicate q 5 ++ t) = (List.range (q * 5)).map (fun i => b * 5 + i) ++ allSims (b + q) t := by
+  induction q generalizing b with
+  | zero => simp
+  | succ q ih =>
+    simp only [List.replicate_succ, List.cons_append, allSims]
+    rw [ih (b + 1)]
+    have : (q + 1) * 5 = 5 + q * 5 := by omega
+    rw [this, List.range_add, List.map_append, List.map_map, batchSims, List.append_assoc]
+    congr 2
+    · apply List.map_congr_left; intro i _; simp only [Function.comp]; omega
+    · congr 1; omega
+
+theorem allSims_batchSimulations (n : Nat) : allSims 0 (batchSimulations n) = List.range n := by
+  unfold batchSimulations
+  split
+  · rw [allSims_replicate]
+    have hn : n = n / 5 * 5 + n % 5 := by omega
+    split
+    · simp only [allSims, batchSims, List.append_nil, Nat.zero_mul, Nat.zero_add]
+      conv => rhs; rw [hn, List.range_add]
+      simp
+    · simp only [allSims, List.append_nil]
+      have : n % 5 = 0 := by omega
+      conv => rhs; rw [hn, this]
+      simp
+  · simp [allSims, batchSims]
 
 end LdarModel.Summary
